@@ -31,7 +31,8 @@ def result_fields():
     return out
 
 
-EXPRS = ["amount", "amount * 2", "CASE WHEN status = 'it''s' THEN 1 ELSE 0 END", "{model}.amount", "CAST(amount AS DOUBLE)", "\"order\"", "a.b", "COALESCE(amount, 0)", "amount -- x"]
+EXPRS = ["amount", "amount * 2", "CASE WHEN status = 'it''s' THEN 1 ELSE 0 END", "{model}.amount", "CAST(amount AS DOUBLE)", "\"order\"", "a.b", "COALESCE(amount, 0)", "amount -- x",
+         "CASE WHEN status = 'a' -- active only\n     THEN amount\n     ELSE 0 END", "amount\n  + 0"]
 
 
 def gen_graph(rng):
@@ -41,7 +42,7 @@ def gen_graph(rng):
     from sidemantic.core.segment import Segment
     L = dbutil.fresh_layer()
     opt = lambda v, p=0.5: v if rng.random() < p else None
-    mets = [Metric(name="rev", agg="sum", sql=rng.choice(EXPRS[:8]), filters=opt(["{model}.status = 'a'"], 0.4), fill_nulls_with=opt(rng.choice([0, 1, -1]), 0.4)),
+    mets = [Metric(name="rev", agg="sum", sql=rng.choice(EXPRS[:8] + EXPRS[9:]), filters=opt(["{model}.status = 'a'"], 0.4), fill_nulls_with=opt(rng.choice([0, 1, -1]), 0.4)),
             Metric(name="n", agg="count"), Metric(name="uniq", agg="count_distinct", sql="customer_id"), Metric(name="avg_amount", agg=rng.choice(["avg", "min", "max", "median"]), sql="amount"),
             Metric(name="rev", agg="sum", sql="amount") if False else Metric(name="amount", agg=rng.choice(["count", "sum", "count_distinct"]), sql="amount")]   # a measure named like its column
     mets.append(Metric(name="r", type="ratio", numerator="rev", denominator="n", fill_nulls_with=opt(0, 0.5)))
